@@ -28,6 +28,8 @@ ANCHORS = ["Term.replace_table", "Field.replace_table", "Tuple.replace_table", "
            "Function.replace_table", "NestedCriterion.replace_table", "QueryBuilder.replace_table", "Join.replace_table",
            "JoinOn.replace_table", "JoinUsing.replace_table"]
 WORKERS = {"quick": 16, "thorough": 16}
+# cases the check sets aside instead of judging, as a share of all cases (more than that makes a run inconclusive)
+CEILING_RATIOS = {"unbuildable": 0.01, "random_raises": 0.02}
 
 PAIRS = [("plain", "plain"), ("plain", "aliased"), ("aliased", "plain"), ("aliased", "aliased"), ("schema", "plain"),
          ("plain", "schema"), ("none", "plain"), ("plain", "none")]
